@@ -26,9 +26,9 @@ def run(prop, tier, seed):
     if tier == "thorough":
         msgs, keys, muts = set(MSGS), set(KEYS), set(MUTS)
     else:
-        msgs = set(rnd.sample(MSGS, 2))
+        msgs = set(rnd.sample(MSGS, 1))
         keys = set(KEYS)
-        muts = {"none"} | set(rnd.sample(MUTS[1:], 3))
+        muts = {"none"} | set(rnd.sample(MUTS[1:], 2))
     out.assumptions += ["cryptographic primitives (ed25519, secp256k1) are trusted; they are observed on every generated negative case",
                         "messages are chosen so that their handlers fail: 'fee taken and nothing else changed' identifies a transaction the ante handler accepted",
                         "the tx index is the harness's fake Tendermint RPC (answers 'found' exactly for hashes registered as already committed)"]
@@ -86,13 +86,13 @@ def run(prop, tier, seed):
             div, bad = dv["div"], dv["bad"]
             for b in sorted(bad):
                 k = e["case"]
-                key = (b, k["ktype"], k["who"], k["pksrc"], k["mut"], k["feeD"] < 0, k["replayed"])
+                key = (b, k["ktype"], k["who"], k["pksrc"], k["mut"], k["feeD"] < 0, k["rp"], k["fx"])
                 if key in seen:
                     continue
                 seen.add(key)
                 out.violation(sig=b, what="%s: the real ante handler %s case %s (fee %d, required %d, signer %+d, collector %+d)" % (
                     b, "accepted" if e["obs"]["accepted"] else "rejected", json.dumps(k), e["obs"]["fee"], e["obs"]["required"], e["obs"]["signerDelta"], e["obs"]["feeDelta"]),
-                    ktype=k["ktype"], who=k["who"], pksrc=k["pksrc"], mut=k["mut"], underpaid=k["feeD"] < 0, replayed=k["replayed"],
+                    ktype=k["ktype"], who=k["who"], pksrc=k["pksrc"], mut=k["mut"], underpaid=k["feeD"] < 0, replayed=k["rp"], fee_shape=k["fx"],
                     replay={"case": k, "obs": e["obs"], "seed": seed})
             if "accepts" in div and not e["obs"]["accepted"]:
                 spurious += 1  # the code rejects more than the transcription: nonconformance, not a C03 violation
